@@ -7,7 +7,19 @@ CONSTANTS
   ParentOf <- TraceParentOf
   Ops = {}
 SPECIFICATION TraceSpec
-INVARIANT TraceInvariant
+INVARIANT TypeOK
+INVARIANT C03_RevokedWhileRelevant
+INVARIANT C03_CurrentNotRevoked
+INVARIANT C14_NumbersAgree
+INVARIANT C01_ManifestExact
+INVARIANT RpMatches
+INVARIANT SettledAgreed
+INVARIANT C01_Clean
+INVARIANT C01_Vrps
+INVARIANT C02_NoOverclaim
+INVARIANT C02_Converged
+INVARIANT C04_KeysHaveCerts
+INVARIANT C04_PubKeysMatch
 PROPERTY TraceStepProps
 POSTCONDITION TraceAccepted
 CHECK_DEADLOCK FALSE
